@@ -242,6 +242,14 @@ class Analyzer:
         for a in list(args) + list(kws.values()):
             allr |= a.r
         argnodes = list(e.args)
+        # library calls that write into one of their arguments: `out=` (ufuncs, np.matmul, np.dot ...) is a write into that
+        # object; `overwrite_a=True` / `overwrite_b=True` / `overwrite_x=True` (scipy.linalg) allows the routine to destroy the
+        # corresponding positional argument (whether it does depends on the memory layout: reported as a write)
+        if 'out' in kws and kws['out'].d:
+            self.write(kws['out'], e.lineno, '!out=')
+        for k_ in e.keywords:
+            if k_.arg and k_.arg.startswith('overwrite_') and not (isinstance(k_.value, ast.Constant) and k_.value.value is False) and args:
+                self.write(args[0], e.lineno, f'!{k_.arg}')
         if isinstance(e.func, ast.Attribute):
             m = e.func.attr
             base = _dotted(e.func.value)
